@@ -5,6 +5,9 @@ package obfs4
 import (
 	"bytes"
 
+	"gitlab.com/yawning/obfs4.git/common/drbg"
+	"gitlab.com/yawning/obfs4.git/common/probdist"
+
 	"gitlab.com/yawning/obfs4.git/internal/verifrt"
 	"gitlab.com/yawning/obfs4.git/transports/obfs4/framing"
 )
@@ -55,4 +58,85 @@ func VerifC09PadBurst() {
 		}
 	}
 	verifrt.Reach("end")
+}
+
+// VerifC09Paranoid: lemma B3 – paranoid IAT mode: every write handed to the network has
+// exactly the (non-zero) sampled length, never more than 1448 bytes, and Write does not panic,
+// for arbitrary samples (the opaque distribution returns any value in [0,1448], a superset of
+// every seed's table – in particular tables that contain 0).
+func VerifC09Paranoid() {
+	if !verifrt.Symbolic() {
+		nativeParanoidSearch()
+		return
+	}
+	key := verifrt.Bytes("key", framing.KeyLength)
+	wire := verifrt.NewConn("wire", nil)
+	tx := vEndpoint(wire, true, iatParanoid, key, key)
+	var samples []int
+	verifrt.OnSample(func(min, max int) int {
+		v := verifrt.IntRange("sample", min, max)
+		if max == framing.MaximumSegmentLength {
+			samples = append(samples, v)
+		}
+		return v
+	})
+	n := []int{0, 1, maxPacketPayloadLength + 1}[verifrt.Pick("write_size_class", 0, 2)]
+	k, err := tx.Write(verifrt.Bytes("payload", n))
+	verifrt.Assert(err == nil && k == n, "Write succeeds")
+	verifrt.Reach("write returned")
+	checkParanoidWrites(wire, samples)
+	verifrt.Reach("end")
+}
+
+// every network write is one of the sampled lengths, in order (samples that led to a
+// resample because padding needed two frames are skipped), non-zero and <= 1448.
+func checkParanoidWrites(wire *verifrt.Conn, samples []int) {
+	si := 0
+	for _, sz := range wire.WriteSizes {
+		verifrt.Assert(sz > 0, "paranoid write is non-empty")
+		verifrt.Assert(sz <= framing.MaximumSegmentLength, "paranoid write <= 1448")
+		for si < len(samples) && effSample(samples[si]) != sz {
+			si++
+		}
+		verifrt.Assert(si < len(samples), "paranoid write length equals a sampled length")
+		si++
+	}
+}
+
+// a sample of 0 stands for "end on a segment boundary": it is written as one full segment
+// (DESIGN.md section 7).
+func effSample(s int) int {
+	if s == 0 {
+		return framing.MaximumSegmentLength
+	}
+	return s
+}
+
+// nativeParanoidSearch is the native replay of B3 counterexamples: the sample values the
+// solver chose cannot be forced on the real seeded distribution, so the replay searches the
+// real seeds (about 4% have a table containing 0) and writes until the sample is drawn.
+func nativeParanoidSearch() {
+	key := make([]byte, framing.KeyLength)
+	for i := 0; i < 120; i++ {
+		var raw [drbg.SeedLength]byte
+		raw[0] = byte(i)
+		raw[1] = byte(i >> 8)
+		seed, _ := drbg.SeedFromBytes(raw[:])
+		wire := verifrt.NewConn("wire", nil)
+		lenDist := probdist.New(seed, 0, framing.MaximumSegmentLength, false)
+		iatDist := probdist.New(seed, 0, maxIATDelay, false)
+		tx := &obfs4Conn{wire, true, lenDist, iatDist, iatParanoid, bytes.NewBuffer(nil), bytes.NewBuffer(nil),
+			make([]byte, consumeReadSize), framing.NewEncoder(key), framing.NewDecoder(key)}
+		msg := verifrt.PanicMsg(func() {
+			for w := 0; w < 400; w++ {
+				if _, err := tx.Write([]byte{1}); err != nil {
+					return
+				}
+			}
+		})
+		verifrt.Assert(msg == "", "paranoid-mode Write does not panic (seed "+string(rune('0'+i%10))+"): "+msg)
+		for _, sz := range wire.WriteSizes {
+			verifrt.Assert(sz > 0 && sz <= framing.MaximumSegmentLength, "paranoid write size in 1..1448")
+		}
+	}
 }
